@@ -8,9 +8,17 @@ pool of random proper types over its classes.  On the resulting real `TypeSystem
 the inheritance graph.  The Lean model (`Driver/C25.lean`) receives only the class table read from Python's
 `__bases__` (not pynguin's graph), builds the graph itself and answers the same queries.
 
+The pool is a random part (types + related variants) plus two focused families: (A) a NON-union type with a union
+nested at depth 1-3 in a tuple element / list, set, dict or user-class argument, the same type with that union
+narrowed to one member, and unions that contain the latter (so the shared "union on the right" fast path of
+`is_subtype` / `is_maybe_subtype` is decided by a nested union); (B) parameterised instances of two DIFFERENT
+classes related by inheritance (user class over list/set/dict/user class), both directions, + an unrelated class.
+
 Oracle = the property in its own words, on the implementation's answers only: reflexive, transitive, Any on top,
-union-left ⇔ all members, `is_subclass` == `issubclass` (+ numeric tower), distance defined ⇒ may-be-subtype,
-distance of identical types is 0.
+union-left ⇔ all members (lenient: some member), union-right with a non-union left ⇔ some member (both relations,
+members queried on the real type system) and monotone in the right union, strict ⇒ lenient, `is_subclass` ==
+`issubclass` (+ numeric tower), distance defined ⇒ may-be-subtype (between Instances: ⇒ Python subclass), distance
+of identical types is 0.
 """
 from __future__ import annotations
 
@@ -88,7 +96,9 @@ class C25(PropertyCheck):
     n_thorough = 600
     n_search = 300
     rule = ("one case = one generated module (3-9 classes over builtins, multiple inheritance) analysed by "
-            "generate_test_cluster + a pool of 10-16 random proper types; all ordered pairs are queried "
+            "generate_test_cluster + a pool of 14-23 proper types (random types and variants; non-union types with "
+            "a union nested at depth 1-3 together with their narrowed forms inside right-hand unions; "
+            "parameterised instances of different related classes); all ordered pairs are queried "
             "(is_subtype, is_maybe_subtype, subtype_distance), all pairs of analysed classes (is_subclass, "
             "shortest path); non-trivial = distinct case whose pool has at least one strict non-identical "
             "subtype pair and one defined non-identical distance")
@@ -203,6 +213,153 @@ class C25(PropertyCheck):
         j = rng.randrange(len(items))
         return {"u": [self._variant(rng, m, classes, parents) if i == j else m for i, m in enumerate(items)]}
 
+    # -- focused families (appended to the random pool) ---------------------------------------------
+    @staticmethod
+    def _leaf(rng, classes, none_p=0.1):
+        """An argument-free type: an instance of a non-generic class, sometimes None."""
+        if rng.random() < none_p:
+            return "N"
+        return {"i": [rng.choice([c for c in classes if c not in ARITY]), []]}
+
+    def _wrap(self, rng, classes, user, depth):
+        """A one-hole context `hole -> type`: a tuple element, a list/set/dict argument or an argument of a user
+        class, nested `depth` times (so the hole sits at depth 1-3 of a NON-union type)."""
+        k = rng.random()
+        if k < 0.45:
+            n = rng.randint(1, 3)
+            pos = rng.randrange(n)
+            others = [self._leaf(rng, classes) for _ in range(n)]
+
+            def f(h):
+                return {"t": [False, [h if i == pos else others[i] for i in range(n)]]}
+        elif k < 0.60:
+            def f(h):
+                return {"i": ["builtins.list", [h]]}
+        elif k < 0.70:
+            def f(h):
+                return {"i": ["builtins.set", [h]]}
+        elif k < 0.87:
+            other = self._leaf(rng, classes, 0.0)
+            first = rng.random() < 0.4
+
+            def f(h):
+                return {"i": ["builtins.dict", [h, other] if first else [other, h]]}
+        else:
+            c = rng.choice(user)
+
+            def f(h):
+                return {"i": [c, [h]]}
+        if depth <= 1:
+            return f
+        inner = self._wrap(rng, classes, user, depth - 1)
+        return lambda h: f(inner(h))
+
+    def _fam_nested_union(self, rng, classes, user, parents):
+        """A non-union type L with a union nested in a tuple element / generic argument, the same type M with the
+        union narrowed to one member (L may be an M, but is not strictly one), and unions R that hold M — so
+        that the right-hand-union path of both relations is driven with a left operand whose nested union decides
+        the answer; plus a neighbour (wider nested union on the right, other member, left union, decoy)."""
+        members = []
+        for _ in range(12):
+            m = self._leaf(rng, classes)
+            if m not in members:
+                members.append(m)
+            if len(members) >= rng.choice([2, 2, 3]):
+                break
+        if len(members) < 2:
+            return []
+        union = {"u": list(members)}
+        if len(members) == 3 and rng.random() < 0.2:
+            union = {"u": [members[0], {"u": members[1:]}]}
+        m = rng.choice(members)
+        narrowed = m
+        if isinstance(m, dict) and rng.random() < 0.25:  # a superclass of the member still "may" fit
+            ups = [c for c in parents.get(m["i"][0], []) if c not in ARITY]
+            if ups:
+                narrowed = {"i": [rng.choice(ups), []]}
+        wrap = self._wrap(rng, classes, user, rng.choice([1, 1, 2]))
+        left, mid = wrap(union), wrap(narrowed)
+
+        def other():
+            k = rng.random()
+            if k < 0.45:
+                return self._leaf(rng, classes, 0.3)
+            if k < 0.75:
+                return {"t": [False, [self._leaf(rng, classes) for _ in range(rng.randint(0, 3))]]}
+            return {"i": ["builtins.list", [self._leaf(rng, classes)]]}
+
+        x = other()
+        items = [mid, x] if rng.random() < 0.5 else [x, mid]
+        if rng.random() < 0.25:
+            items.insert(rng.randrange(3), other())
+        res = [left, mid, {"u": items}]
+        k = rng.random()
+        if k < 0.25:    # wider nested union inside a member of the right union: holds strictly
+            res.append({"u": [wrap({"u": members + [self._leaf(rng, classes)]}), x]})
+        elif k < 0.5:   # a different member
+            m2 = rng.choice([q for q in members if q != m] or members)
+            res.append({"u": [x, wrap(m2)]})
+        elif k < 0.7:   # union on the left as well
+            res.append({"u": [left, other()]})
+        elif k < 0.85:  # decoy: same shape, a type outside the nested union
+            res.append({"u": [wrap(self._leaf(rng, classes)), x]})
+        else:           # the nested union itself widened by Any / None
+            res.append(wrap({"u": [m, rng.choice(["A", "N"])]}))
+        return res
+
+    def _fam_related_generic(self, rng, classes, user, parents):
+        """Parameterised instances of two DIFFERENT classes related by inheritance (user class over list/set/dict
+        or over another user class), in both directions, with equal / related / unrelated arguments, plus an
+        instance of an unrelated class carrying the same arguments."""
+        anc = {}
+
+        def ancestors(c):
+            if c not in anc:
+                anc[c] = set()
+                for p_ in parents.get(c, []):
+                    anc[c] |= {p_} | ancestors(p_)
+            return anc[c]
+
+        ok = lambda c: c in ARITY or c.startswith("K")  # noqa: E731
+        pairs = sorted((c, a) for c in user for a in ancestors(c) if a != c and ok(a))
+        if not pairs:
+            self.count("fam:no-related-class-pair")
+            return []
+        sub_c, sup_c = rng.choice(pairs)
+        n_sup = ARITY.get(sup_c) or rng.randint(1, 2)
+        n_sub = ARITY.get(sub_c) or (n_sup if rng.random() < 0.8 else rng.randint(1, 2))
+        base = [self._leaf(rng, classes, 0.0) for _ in range(2)]
+
+        def related(a):
+            k = rng.random()
+            c = a["i"][0]
+            if k < 0.45:
+                return a
+            if k < 0.75:
+                near = parents.get(c, []) + [d for d, ps in parents.items() if c in ps]
+                near = [d for d in near if d not in ARITY]
+                return {"i": [rng.choice(near), []]} if near else a
+            if k < 0.87:
+                return {"u": [a, self._leaf(rng, classes)]}
+            return "A" if k < 0.94 else self._leaf(rng, classes)
+
+        sup_t = {"i": [sup_c, base[:n_sup]]}
+        sub_t = {"i": [sub_c, [related(a) for a in base[:n_sub]]]}
+        res = [sup_t, sub_t]
+        k = rng.random()
+        others = [c for c in user + sorted(ARITY) if c not in (sub_c, sup_c)
+                  and sup_c not in ancestors(c) and c not in ancestors(sub_c)]
+        if k < 0.4 and others:     # unrelated class, same arguments
+            c = rng.choice(others)
+            res.append({"i": [c, base[:ARITY.get(c) or n_sup]]})
+        elif k < 0.6:              # the subclass without arguments
+            res.append({"i": [sub_c, []]} if sub_c not in ARITY else {"i": [sup_c, base[:n_sup]]})
+        elif k < 0.8:              # inside a union / a tuple
+            res.append({"u": [sub_t, self._leaf(rng, classes, 0.3)]})
+        else:
+            res += [{"t": [False, [sup_t]]}, {"t": [False, [sub_t]]}]
+        return res
+
     def gen_case(self, rng):
         specs = self._gen_classes(rng)
         parents = {k: list(v) for k, v in BUILTIN_PARENTS.items()}
@@ -223,7 +380,17 @@ class C25(PropertyCheck):
             for _ in range(rng.choice([1, 1, 2])):
                 t = self._variant(rng, t, classes, parents)
                 pool.append(t)
-        pool = pool[:15] + ["A"]
+        pool = pool[:10]
+        fam = []
+        for _ in range(2):
+            fam += self._fam_nested_union(rng, classes, user, parents)
+        fam += self._fam_related_generic(rng, classes, user, parents)
+        if rng.random() < 0.3:
+            fam += self._fam_related_generic(rng, classes, user, parents)
+        for t in fam:
+            if t not in pool and len(pool) < 22:
+                pool.append(t)
+        pool = pool + ["A"]
         raw = []
         for _ in range(3):
             c = rng.choice(["builtins.list", "builtins.set", "builtins.dict", rng.choice(user), "builtins.int"])
@@ -401,9 +568,10 @@ class C25(PropertyCheck):
 
     # -- the property in its own words --------------------------------------------------------------
     @staticmethod
-    def _ref_cov(exp_sub, ids, s, t):
-        """May `s` be a subtype of `t`, generic arguments read covariantly (reference for classification only)."""
-        rc = lambda a, b: C25._ref_cov(exp_sub, ids, a, b)  # noqa: E731
+    def _ref_cov(exp_sub, ids, s, t, cov=True):
+        """May `s` be a subtype of `t`; generic arguments read covariantly (`cov`) or invariantly. Used ONLY to
+        tell which known deviation explains an observed failure of the distance clause, never to raise one."""
+        rc = lambda a, b: C25._ref_cov(exp_sub, ids, a, b, cov)  # noqa: E731
         if t == "A":
             return True
         if isinstance(s, dict) and "u" in s:
@@ -420,7 +588,7 @@ class C25(PropertyCheck):
             if not exp_sub(ids[s["i"][0]], ids[t["i"][0]]):
                 return False
             if ARITY.get(s["i"][0]) is not None and ARITY.get(s["i"][0]) == ARITY.get(t["i"][0]):
-                return all(rc(a, b) for a, b in zip(s["i"][1], t["i"][1]))
+                return all(rc(a, b) and (cov or rc(b, a)) for a, b in zip(s["i"][1], t["i"][1]))
             return True
         if not (isinstance(t, dict) and "t" in t) or len(s["t"][1]) != len(t["t"][1]):
             return False
@@ -447,6 +615,12 @@ class C25(PropertyCheck):
 
         def show(t):
             return jdump(t)
+
+        def exp_sub(a, b):
+            return aux["exp"].get(f"{a},{b}", False)
+
+        def is_union(t):
+            return isinstance(t, dict) and "u" in t
 
         # every generated class must have been analysed
         for nm in aux["missing"]:
@@ -491,13 +665,27 @@ class C25(PropertyCheck):
                         k = "raises"
                     elif not (has_args(T) and has_args(S)):
                         k = "other"
-                    elif self._ref_cov(lambda a, b: aux["exp"].get(f"{a},{b}", False), ids, S, T):
-                        k = "generic-args-invariance"
+                    elif self._ref_cov(exp_sub, ids, S, T):
+                        # explained by the invariance of generic arguments only if the invariant reading of the
+                        # lenient relation really says no; otherwise the relation itself lost a pair
+                        k = ("generic-args-invariance" if not self._ref_cov(exp_sub, ids, S, T, cov=False)
+                             else "lenient-relation-denies")
                     else:
                         k = "generic-args-ignore-class"
                     fail("dist-maybe", k,
                          f"subtype_distance({show(T)}, {show(S)}) = {d} but is_maybe_subtype(S, T) = {MAY[j][i]}",
                          T=T, S=S)
+                # ... in particular, between two Instances, only when Python says subclass (+ tower)
+                if (d is not None and not isinstance(d, dict) and isinstance(pool[i], dict) and "i" in pool[i]
+                        and isinstance(pool[j], dict) and "i" in pool[j]
+                        and aux["exp"].get(f"{ids[pool[j]['i'][0]]},{ids[pool[i]['i'][0]]}") is False):
+                    fail("dist-maybe", "instance-classes-unrelated",
+                         f"subtype_distance({show(pool[i])}, {show(pool[j])}) = {d} but {pool[j]['i'][0]} is not a "
+                         f"subclass of {pool[i]['i'][0]}", T=pool[i], S=pool[j])
+                # the lenient relation contains the strict one
+                if SUB[i][j] is True and MAY[i][j] is not True:
+                    fail("maybe", "strict-not-lenient", f"is_subtype({show(pool[i])}, {show(pool[j])}) holds but "
+                         f"is_maybe_subtype = {MAY[i][j]}", L=pool[i], R=pool[j])
         # transitive
         done = set()
         for a in range(n):
@@ -515,15 +703,48 @@ class C25(PropertyCheck):
         # union on the left <=> all members: evaluate the members on the real type system
         ctx = self._context(case)
         ts = ctx["ts"]
+        real = [self._mk(ctx, t) for t in pool]
         for i in range(n):
-            if isinstance(pool[i], dict) and "u" in pool[i]:
+            if is_union(pool[i]):
                 members = [self._mk(ctx, mm) for mm in pool[i]["u"]]
                 for j in range(n):
-                    R = self._mk(ctx, pool[j])
+                    R = real[j]
                     want = all(self._call(ts.is_subtype, mm, R) is True for mm in members)
                     if SUB[i][j] is not want:
                         fail("union", "left-iff-all", f"is_subtype({show(pool[i])}, {show(pool[j])}) = {SUB[i][j]} "
                              f"but all members: {want}", U=pool[i], R=pool[j])
+                    # the lenient relation: some member suffices (Any on the right is decided before)
+                    if pool[j] != "A":
+                        want = any(self._call(ts.is_maybe_subtype, mm, R) is True for mm in members)
+                        if MAY[i][j] is not want:
+                            fail("union", "maybe-left-iff-any", f"is_maybe_subtype({show(pool[i])}, {show(pool[j])}) "
+                                 f"= {MAY[i][j]} but some member: {want}", U=pool[i], R=pool[j])
+        # union on the right, left operand not a union: BOTH relations hold <=> they hold to some member
+        # (whatever is nested inside the left operand); and widening the right side to a union never loses a pair
+        for j in range(n):
+            if not is_union(pool[j]):
+                continue
+            members = [self._mk(ctx, mm) for mm in pool[j]["u"]]
+            for i in range(n):
+                if is_union(pool[i]):
+                    continue
+                L = real[i]
+                for rel, tab, fn in (("is_subtype", SUB, ts.is_subtype), ("is_maybe_subtype", MAY, ts.is_maybe_subtype)):
+                    want = any(self._call(fn, L, mm) is True for mm in members)
+                    if tab[i][j] is not want:
+                        nested = t_any(is_union, pool[i])
+                        fail("union", f"right-iff-any/{rel}" + ("/nested-union-left" if nested else ""),
+                             f"{rel}({show(pool[i])}, {show(pool[j])}) = {tab[i][j]} but to some member: {want}",
+                             L=pool[i], R=pool[j])
+            for k in range(n):
+                if pool[k] not in pool[j]["u"]:
+                    continue
+                for i in range(n):
+                    for rel, tab in (("is_subtype", SUB), ("is_maybe_subtype", MAY)):
+                        if tab[i][k] is True and tab[i][j] is not True:
+                            fail("union", f"right-not-monotone/{rel}",
+                                 f"{rel}({show(pool[i])}, {show(pool[k])}) holds but not {rel}(., {show(pool[j])}) "
+                                 f"although the latter union contains the former", L=pool[i], M=pool[k], R=pool[j])
         # dedupe by signature (one report per class and case)
         seen, res = set(), []
         for f in fails:
@@ -540,6 +761,17 @@ class C25(PropertyCheck):
                      for i in range(n) for j in range(n))
         dist = any(isinstance(out[2 * n * n + i * n + j], int) and case["pool"][i] != case["pool"][j]
                    for i in range(n) for j in range(n))
+        pool = case["pool"]
+        isu = lambda t: isinstance(t, dict) and "u" in t  # noqa: E731
+        ins = lambda t: isinstance(t, dict) and "i" in t and len(t["i"][1]) > 0  # noqa: E731
+        lenient_only = sum(1 for i in range(n) for j in range(n) if isu(pool[j]) and not isu(pool[i])
+                           and out[n * n + i * n + j] is True and out[i * n + j] is False)
+        related = sum(1 for i in range(n) for j in range(n) if ins(pool[i]) and ins(pool[j])
+                      and pool[i]["i"][0] != pool[j]["i"][0] and isinstance(out[2 * n * n + i * n + j], int))
+        self.count("kind:right-union-decided-by-nested-union" if lenient_only else "kind:no-right-union-lenient-only")
+        self.count("kind:distance-between-parameterised-related-classes" if related else "kind:no-related-generic-pair")
+        self.count("pairs:right-union-lenient-only", lenient_only)
+        self.count("pairs:parameterised-related-classes-distance", related)
         self.count("kind:strict-subtype-pair" if strict else "kind:no-strict-pair")
         self.count("kind:defined-distance" if dist else "kind:no-distance")
         for t in case["pool"]:
